@@ -267,7 +267,10 @@ def main(argv):
     er = efn(tier, seed)
     engine_cov[ename] = er['coverage']
     for v in er.get('violations', []):
-      violations.append(v)
+      # (tag, harness function, kwargs, text): replayed like any other counterexample
+      if is_known(v[1], v[2]):
+        continue
+      handle_cex(ename, v[1], v[2], 'solver schedule: ' + str(v[3]))
     infra.extend(er.get('infra', []))
     known_lines.extend(er.get('known_lines', []))
     functions.update(er.get('functions', []))
